@@ -42,17 +42,20 @@ Check(e, l) ==
   ELSE IF e.status # 200 THEN
        \* a request value may be an invalid query, but then for the benign twin as well, or only for the payload
        (e.variant = "benign" /\ Trace[PageOf[e.twin]].status = 200 => Reject(l, "twin-status", [head |-> e.head]))
-  ELSE IF ~Accepts(e.tmpl, e.toks) THEN Reject(l, "structure", [tmpl |-> e.tmpl, at |-> Furthest(e.tmpl, e.toks)])
-  \* ("solo" requests match inside the planted values: the highlighting splits them, only the structure is judged)
-  ELSE IF e.kind # "solo" /\ \E i \in DOMAIN e.toks : e.toks[i].bad # 0
-       THEN Reject(l, "not-verbatim", [tok |-> CHOOSE i \in DOMAIN e.toks : e.toks[i].bad # 0])
-  ELSE IF \E i \in DOMAIN e.toks : \E j \in DOMAIN e.toks[i].url : BadURL(e.toks[i].url[j][2])
-       THEN Reject(l, "url-scheme", [tok |-> CHOOSE i \in DOMAIN e.toks : \E j \in DOMAIN e.toks[i].url : BadURL(e.toks[i].url[j][2])])
-  ELSE IF e.variant = "payload" /\ e.twin # e.id /\ Trace[PageOf[e.twin]].status = 200 /\ Skel(e.toks) # Skel(Trace[PageOf[e.twin]].toks)
-       THEN Reject(l, "twin-structure", [twin |-> e.twin])
-  ELSE IF e.variant = "payload" /\ e.twin # e.id /\ Trace[PageOf[e.twin]].status = 200 /\ Js(e.toks) # Js(Trace[PageOf[e.twin]].toks)
-       THEN Reject(l, "twin-js", [twin |-> e.twin])
-  ELSE TRUE
+  ELSE
+    \* every clause is judged on its own (a page may be reported for several reasons): a change of the
+    \* page structure must not hide that a planted value is interpreted
+    LET tw == Trace[PageOf[e.twin]] IN
+    /\ (~Accepts(e.tmpl, e.toks) => Reject(l, "structure", [tmpl |-> e.tmpl, at |-> Furthest(e.tmpl, e.toks)]))
+    \* ("solo" requests match inside the planted values: the highlighting splits them, only the structure is judged)
+    /\ (e.kind # "solo" /\ (\E i \in DOMAIN e.toks : e.toks[i].bad # 0)
+          => Reject(l, "not-verbatim", [tok |-> CHOOSE i \in DOMAIN e.toks : e.toks[i].bad # 0]))
+    /\ ((\E i \in DOMAIN e.toks : \E j \in DOMAIN e.toks[i].url : BadURL(e.toks[i].url[j][2]))
+          => Reject(l, "url-scheme", [tok |-> CHOOSE i \in DOMAIN e.toks : \E j \in DOMAIN e.toks[i].url : BadURL(e.toks[i].url[j][2])]))
+    /\ (e.variant = "payload" /\ e.twin # e.id /\ tw.status = 200 /\ Skel(e.toks) # Skel(tw.toks)
+          => Reject(l, "twin-structure", [twin |-> e.twin]))
+    /\ (e.variant = "payload" /\ e.twin # e.id /\ tw.status = 200 /\ Skel(e.toks) = Skel(tw.toks) /\ Js(e.toks) # Js(tw.toks)
+          => Reject(l, "twin-js", [twin |-> e.twin]))
 
 \* ---- sensitivity (specification level): no single injected token is absorbed by an expression
 XTok(tag, an) == [k |-> "S", tag |-> tag, an |-> an, ad |-> <<>>, cls |-> "", bad |-> 0, js |-> ""]
